@@ -62,7 +62,7 @@ func (e *EAP) DecodeFromBytes(data []byte, df gopacket.DecodeFeedback) error {
 	switch {
 	case e.Length > 4:
 		e.Type = EAPType(data[4])
-		e.TypeData = data[5:]
+		e.TypeData = data[5:e.Length]
 	case e.Length == 4:
 		e.Type = 0
 		e.TypeData = nil
